@@ -84,26 +84,33 @@ def small_pdu(kind, a, b, payload):
 
 
 SMALL = ["ABORT", "PDATA", "RELRQ", "RELRP", "RJ"]
-N_CUTS = tier(2, 3)
 PAYLOAD = 2
 
 
-N_CUTS_CLOSE = tier(1, 2)
+CORE_PAIRS = [["PDATA", "ABORT"], ["ABORT", "PDATA"], ["RELRQ", "PDATA"], ["PDATA", "PDATA"], ["RJ", "RELRP"]]
 
 
 def _seq_shards():
-    seqs = [[k] for k in SMALL]
+    """The cut list and the close offset are enumerated; their full cross product is split in two modes:
+    "cuts": no close, up to `nc` cuts;  "close": close at every offset 0..stream length, up to `nc` cuts.
+    quick:    every single PDU and five pairs, nc = 2 (cuts) / 1 (close)
+    thorough: singles and the five pairs with nc = 3 / 2; all 25 ordered pairs and two triples with nc = 2 / 1"""
+    out = []
+    core = [[k] for k in SMALL] + CORE_PAIRS
     if tier(False, True):
-        seqs += [[k1, k2] for k1 in SMALL for k2 in SMALL]
+        for q in core:
+            out += [{"seq": q, "mode": "cuts", "nc": 3}, {"seq": q, "mode": "close", "nc": 2}]
+        rest = [[k1, k2] for k1 in SMALL for k2 in SMALL if [k1, k2] not in CORE_PAIRS]
+        rest += [["PDATA", "PDATA", "RELRQ"], ["RELRP", "ABORT", "PDATA"]]
+        for q in rest:
+            out += [{"seq": q, "mode": "cuts", "nc": 2}, {"seq": q, "mode": "close", "nc": 1}]
     else:
-        seqs += [["PDATA", "ABORT"], ["ABORT", "PDATA"], ["RELRQ", "PDATA"], ["PDATA", "PDATA"], ["RJ", "RELRP"]]
-    if tier(False, True):
-        seqs += [["PDATA", "PDATA", "RELRQ"], ["RELRP", "ABORT", "PDATA"]]
-    # the cut list and the close offset are enumerated; their full cross product is split in two:
-    # mode "cuts": no close, up to N_CUTS cuts;  mode "close": close at every offset, up to N_CUTS_CLOSE cuts
-    return [{"seq": q, "mode": m} for q in seqs for m in ("cuts", "close")]
+        for q in core:
+            out += [{"seq": q, "mode": "cuts", "nc": 2}, {"seq": q, "mode": "close", "nc": 1}]
+    return out
 
 
+N_CUTS = shard("nc", 2)
 _MODE = shard("mode", "cuts")
 
 
@@ -118,8 +125,10 @@ TOTAL = sum(_LENS)
     functions=["transport:AssociationSocket.recv", "transport:AssociationSocket.ready", "dul:DULServiceProvider._is_transport_event",
                "dul:DULServiceProvider._read_pdu_data", "dul:DULServiceProvider._decode_pdu"],
     bounds="a stream of 1..%d small PDUs (A-ABORT, P-DATA-TF with one %d-byte PDV, A-RELEASE-RQ/-RP, A-ASSOCIATE-RJ; field values and "
-           "payload bytes symbolic); cuts of any size 1..stream length (solver-enumerated), then greedy delivery: up to %d cuts "
-           "without close; up to %d cuts with a close after any number of bytes 0..stream length" % (tier(2, 3), PAYLOAD, N_CUTS, N_CUTS_CLOSE),
+           "payload bytes symbolic); cuts of any size 1..stream length (solver-enumerated), then greedy delivery: %s"
+           % (tier(2, 3), PAYLOAD, tier("up to 2 cuts without close; up to 1 cut with a close after any number of bytes 0..stream length",
+                                        "single PDUs and five pairs: up to 3 cuts without close, up to 2 cuts with a close at any offset; "
+                                        "all 25 ordered pairs and two triples: up to 2 cuts / 1 cut with close")),
     stubs=["FakeRawSocket / FakeSelect (vlib/stubs/fakesocket.py); provider built by make_provider; socket timeout configured"],
     outside="inter-chunk delays (invisible below the socket timeout; above it: C08); more cuts; large PDUs (see cuts_symbolic)",
 )
@@ -127,7 +136,7 @@ def cuts_enumerated(cuts: List[int], close_at: int, a: int, b: int, payload: byt
     """
     pre: len(cuts) <= N_CUTS and all(1 <= c <= TOTAL for c in cuts)
     pre: -1 <= close_at <= TOTAL
-    pre: (_MODE == "cuts" and close_at == -1) or (_MODE == "close" and close_at >= 0 and len(cuts) <= N_CUTS_CLOSE)
+    pre: (_MODE == "cuts" and close_at == -1) or (_MODE == "close" and close_at >= 0)
     pre: 0 <= a <= 255 and 0 <= b <= 255
     pre: len(payload) == PAYLOAD
     post: _ == True
